@@ -7,7 +7,7 @@ Ltac Zify.zify_post_hook ::= Z.to_euclidean_division_equations.
 (** ---------- strings.Split ---------- *)
 Lemma split_aux_nosep sep s cur : Forall (fun c => c <> sep) s -> split_aux sep s cur = [rev cur ++ s].
 Proof.
-  revert cur. induction s as [|c t IH]; intros cur H; cbn [split_aux].
+  revert cur. induction s as [|c t IH]; intros cur H; cbn [split_aux]; rewrite ?frev_rev.
   - rewrite app_nil_r. reflexivity.
   - apply Forall_cons_iff in H. destruct H as [Hc Ht].
     destruct (N.eqb_spec c sep); [contradiction|].
@@ -17,7 +17,7 @@ Qed.
 Lemma split_aux_app sep a b cur :
   Forall (fun c => c <> sep) a -> split_aux sep (a ++ sep :: b) cur = (rev cur ++ a) :: split_aux sep b [].
 Proof.
-  revert cur. induction a as [|c t IH]; intros cur H; cbn [split_aux app].
+  revert cur. induction a as [|c t IH]; intros cur H; cbn [split_aux app]; rewrite ?frev_rev.
   - rewrite N.eqb_refl, app_nil_r. reflexivity.
   - apply Forall_cons_iff in H. destruct H as [Hc Ht].
     destruct (N.eqb_spec c sep); [contradiction|].
